@@ -129,7 +129,7 @@ pub struct JoinClause {
 pub type TimestampType = DateTime<Local>;
 pub type IntervalType = Duration;
 
-#[derive(Debug, PartialEq, PartialOrd, Clone, Eq, Hash, Ord)]
+#[derive(Debug, Clone)]
 pub enum Value {
     Null,
     Int(i64),
@@ -139,6 +139,105 @@ pub enum Value {
     Array(ValueType, Vec<Value>),
     Timestamp(TimestampType),
     Interval(IntervalType)
+}
+
+// Equality, ordering and hashing of values: values of the same type by their natural order, numbers (INT and
+// REAL) by numeric value whatever their type, values of different types by the order of the types.
+impl Value {
+    fn type_order(&self) -> u8 {
+        match self {
+            Value::Null => 0,
+            Value::Int(_) => 1,
+            Value::Float(_) => 2,
+            Value::Bool(_) => 3,
+            Value::String(_) => 4,
+            Value::Array(_, _) => 5,
+            Value::Timestamp(_) => 6,
+            Value::Interval(_) => 7
+        }
+    }
+
+    fn compare_int_float(x: i64, y: f64) -> Ordering {
+        if y.is_nan() {
+            // NaN is larger than every other number
+            Ordering::Less
+        } else if y >= 9223372036854775808.0 {
+            Ordering::Less
+        } else if y < -9223372036854775808.0 {
+            Ordering::Greater
+        } else {
+            // y is within the range of i64, so its integral part converts exactly
+            let y_integral = y.trunc();
+            match x.cmp(&(y_integral as i64)) {
+                Ordering::Equal => {
+                    if y > y_integral {
+                        Ordering::Less
+                    } else if y < y_integral {
+                        Ordering::Greater
+                    } else {
+                        Ordering::Equal
+                    }
+                }
+                ordering => ordering
+            }
+        }
+    }
+}
+
+impl Ord for Value {
+    fn cmp(&self, other: &Self) -> Ordering {
+        match (self, other) {
+            (Value::Null, Value::Null) => Ordering::Equal,
+            (Value::Int(x), Value::Int(y)) => x.cmp(y),
+            (Value::Float(x), Value::Float(y)) => x.cmp(y),
+            (Value::Int(x), Value::Float(y)) => Value::compare_int_float(*x, y.0),
+            (Value::Float(x), Value::Int(y)) => Value::compare_int_float(*y, x.0).reverse(),
+            (Value::Bool(x), Value::Bool(y)) => x.cmp(y),
+            (Value::String(x), Value::String(y)) => x.cmp(y),
+            (Value::Array(x_type, x), Value::Array(y_type, y)) => x_type.cmp(y_type).then_with(|| x.cmp(y)),
+            (Value::Timestamp(x), Value::Timestamp(y)) => x.cmp(y),
+            (Value::Interval(x), Value::Interval(y)) => x.cmp(y),
+            _ => self.type_order().cmp(&other.type_order())
+        }
+    }
+}
+
+impl PartialOrd for Value {
+    fn partial_cmp(&self, other: &Self) -> Option<Ordering> {
+        Some(self.cmp(other))
+    }
+}
+
+impl PartialEq for Value {
+    fn eq(&self, other: &Self) -> bool {
+        self.cmp(other) == Ordering::Equal
+    }
+}
+
+impl Eq for Value {}
+
+impl Hash for Value {
+    fn hash<H: Hasher>(&self, state: &mut H) {
+        match self {
+            Value::Null => { 0u8.hash(state); }
+            Value::Int(x) => { 1u8.hash(state); x.hash(state); }
+            Value::Float(x) => {
+                // A REAL that equals an INT must hash like that INT
+                if x.0.fract() == 0.0 && x.0 >= -9223372036854775808.0 && x.0 < 9223372036854775808.0 {
+                    1u8.hash(state);
+                    (x.0 as i64).hash(state);
+                } else {
+                    2u8.hash(state);
+                    x.hash(state);
+                }
+            }
+            Value::Bool(x) => { 3u8.hash(state); x.hash(state); }
+            Value::String(x) => { 4u8.hash(state); x.hash(state); }
+            Value::Array(element, x) => { 5u8.hash(state); element.hash(state); x.hash(state); }
+            Value::Timestamp(x) => { 6u8.hash(state); x.hash(state); }
+            Value::Interval(x) => { 7u8.hash(state); x.hash(state); }
+        }
+    }
 }
 
 impl Value {
